@@ -11,7 +11,7 @@ use serde_json::json;
 
 pub struct C17;
 
-const PRELUDE: &str = "v := 0\nxs := [1, 2, 3]\nob := {\"a\": 1}\nfn id(a) {\nreturn a\n}\nfn nf(a) {\nreturn a\n}\nfn sf_() {\nreturn undef_q\n}\nfn pr_() {\nprint(\"arg\")\nreturn 1\n}\nfn two_(a, b) {\nreturn a\n}\n";
+const PRELUDE: &str = "ml_ := \"a plain literal\nover three\n  lines\"\nv := 0\nxs := [1, 2, 3]\nob := {\"a\": 1}\nfn id(a) {\nreturn a\n}\nfn nf(a) {\nreturn a\n}\nfn sf_() {\nreturn undef_q\n}\nfn pr_() {\nprint(\"arg\")\nreturn 1\n}\nfn two_(a, b) {\nreturn a\n}\n";
 
 /// expressions whose evaluation fails
 pub const EXPR_ERRORS: &[(&str, &str)] = &[
@@ -76,6 +76,10 @@ pub const EXPR_ERRORS: &[(&str, &str)] = &[
 /// statements that fail
 pub const STMT_ERRORS: &[(&str, &str)] = &[
     ("redeclaration", "x_ := 1\nx_ := 2\n"),
+    ("failure at the bottom of a direct recursion", "fn rec_(n) {\nif n == 0 {\nreturn undef_r\n}\nreturn rec_(n - 1)\n}\nrec_(3)\n"),
+    ("failure at the bottom of a mutual recursion", "fn ev_(n) {\nif n == 0 {\nreturn 1 / 0\n}\nreturn od_(n - 1)\n}\nfn od_(n) {\nreturn ev_(n - 1)\n}\nev_(4)\n"),
+    ("failure twelve calls deep", "fn deep_(n) {\nif n == 0 {\nreturn xs[9]\n}\nreturn 1 + deep_(n - 1)\n}\ndeep_(12)\n"),
+    ("failure in a recursive method", "tr_ := {\"d\": 2, \"go\": fn (n) {\nif n == 0 {\nreturn this.missing\n}\nreturn this.go(n - 1)\n}}\ntr_.go(2)\n"),
     ("assignment to an undefined name", "und_ = 1\n"),
     ("op-assignment to an undefined name", "und_ += 1\n"),
     ("list pattern length mismatch", "[p_, q_] := [1]\n"),
